@@ -1015,7 +1015,7 @@ def enclosing_conditions_expanded(node, fn):
     return list(reversed(out))
 
 
-def dict_bindings(fn, expr):
+def dict_bindings(fn, expr, _depth=0):
     """Abstractly evaluate how a dict value is built inside `fn`: returns (bases, bindings, copied) where bases are the
     expressions whose items are copied in, bindings maps constant string keys to value expressions, and `copied` tells
     whether the dict is a fresh object (copy / dict(...) / display) rather than an alias of a base.
@@ -1063,6 +1063,14 @@ def dict_bindings(fn, expr):
         name = expr.id
         defs = [st for st in walk_no_nested(fn) if isinstance(st, ast.Assign) and any(isinstance(t, ast.Name) and t.id == name for t in st.targets)]
         for d in defs:
+            if isinstance(d.value, ast.Name) and d.value.id != name and _depth < 4 and any(
+                    isinstance(st, ast.Assign) and any(isinstance(t, ast.Name) and t.id == d.value.id for t in st.targets) for st in walk_no_nested(fn)):
+                # a plain copy of another local that is itself built up as a dict: same object
+                b2, bi2, c2 = dict_bindings(fn, d.value, _depth + 1)
+                bases.extend(b2)
+                bindings.update(bi2)
+                copied = copied or c2
+                continue
             if not absorb(d.value):
                 bases.append(d.value)
         for n in walk_no_nested(fn):
